@@ -5,15 +5,17 @@ CONSTANTS
   Langs = {0}
   Names = {1}
   Feats = {1}
-  FTypes = {1, 2}
-  Vars = {0, 2, 3}
+  FTypes = {1}
+  Vars = {0, 2}
   Vals = {0, 2, 3}
   MaxIds = 0
   MaxFeats = 0
-  MaxFields = 2
+  MaxFields = 1
   MaxVals = 3
+  EmitMin = 0
   MaxHist = 99
 INVARIANTS TypeOK
 PROPERTIES NeutralKeeps ChangeChanges SetsFollow
 VIEW View
+ACTION_CONSTRAINT EmitBehaviour
 CHECK_DEADLOCK FALSE
